@@ -4,6 +4,7 @@ import (
 	"bytes"
 	"crypto"
 	"crypto/x509"
+	"encoding/hex"
 	"errors"
 	"fmt"
 	"github.com/gr33nbl00d/caddy-revocation-validator/config"
@@ -43,6 +44,8 @@ func (c *OCSPRevocationChecker) IsRevoked(clientCertificate *x509.Certificate, v
 		return nil, err
 	}
 	cacheKey := issuerRDNSequence.String() + "_" + clientCertificate.SerialNumber.String()
+	//the rendered name is lossy (octets which are not valid utf-8 all look the same), the encoded issuer name tells such issuers apart
+	cacheKey = hex.EncodeToString(clientCertificate.RawIssuer) + "_" + cacheKey
 	cache, err := c.tryGetResponseFromCache(cacheKey)
 	if err == nil {
 		return cache, nil
